@@ -921,3 +921,153 @@ Qed.
 Example perm_heaps_repaired :
   generated esc_fix seal_edges perm_heap1 ex_gens 0 ex_jd = generated esc_fix seal_edges perm_heap2 ex_gens 0 ex_jd.
 Proof. apply generated_sim, perm_heaps_sim. Qed.
+
+(* ---- assignment order of the parameters (.values) vs declaration order (xpmvalues) ------ *)
+Lemma assoc_str_In {A} k (v : A) l : NoDup (map fst l) -> In (k, v) l -> assoc_str k l = Some v.
+Proof.
+  induction l as [|[k' v'] l IH]; simpl; intros N H; [contradiction|].
+  inversion N; subst. destruct H as [H|H].
+  - inversion H; subst. rewrite (proj2 (str_eqb_eq k k) eq_refl). reflexivity.
+  - destruct (str_eqb k k') eqn:E; auto.
+    apply str_eqb_eq in E. subst. exfalso. apply H2. apply (in_map fst) in H. exact H.
+Qed.
+
+Lemma assoc_str_Some_In {A} k (v : A) l : assoc_str k l = Some v -> In (k, v) l.
+Proof.
+  induction l as [|[k' v'] l IH]; simpl; intros H; [discriminate|].
+  destruct (str_eqb k k') eqn:E.
+  - apply str_eqb_eq in E. inversion H; subst. left; reflexivity.
+  - right; auto.
+Qed.
+
+Lemma assoc_str_perm {A} k (l l' : list (str * A)) :
+  Permutation l l' -> NoDup (map fst l) -> assoc_str k l = assoc_str k l'.
+Proof.
+  intros P N.
+  assert (N' : NoDup (map fst l')) by (eapply Permutation_NoDup; [apply Permutation_map; exact P | exact N]).
+  destruct (assoc_str k l) as [v|] eqn:E.
+  - symmetry. apply assoc_str_In; auto. eapply Permutation_in; eauto. apply assoc_str_Some_In; auto.
+  - destruct (assoc_str k l') as [v|] eqn:E'; auto.
+    apply assoc_str_Some_In in E'. apply (Permutation_in _ (Permutation_sym P)) in E'.
+    rewrite (assoc_str_In k v l N E') in E. discriminate.
+Qed.
+
+(* what the walk iterates does not depend on the order in which the parameters were assigned *)
+Theorem xpmvalues_perm : forall decl vals vals',
+  Permutation vals vals' -> NoDup (map fst vals) -> xpmvalues decl vals = xpmvalues decl vals'.
+Proof.
+  intros decl vals vals' P N. unfold xpmvalues. apply flat_map_ext. intros a.
+  rewrite (assoc_str_perm a vals vals' P N). reflexivity.
+Qed.
+
+Lemma by_decl_reassigned decls nd nd' : node_reassigned nd nd' -> by_decl decls nd = by_decl decls nd'.
+Proof.
+  intros [C [P [N [Pr [I [T S]]]]]]. unfold by_decl. rewrite <- C, <- Pr, <- I, <- T, <- S.
+  rewrite (xpmvalues_perm _ _ _ P N). reflexivity.
+Qed.
+
+Lemma Forall2_len {A B} (R : A -> B -> Prop) l l' : Forall2 R l l' -> length l = length l'.
+Proof. induction 1; simpl; auto. Qed.
+
+Lemma Forall2_nth {A B} (R : A -> B -> Prop) l l' : Forall2 R l l' ->
+  forall n x, nth_error l n = Some x -> exists x', nth_error l' n = Some x' /\ R x x'.
+Proof.
+  induction 1 as [|a b l l' Hab H IH]; intros n x En.
+  - destruct n; discriminate.
+  - destruct n as [|n]; simpl in *.
+    + inversion En; subst. eauto.
+    + apply IH; auto.
+Qed.
+
+Lemma reassigned_sim decls h h' : heap_reassigned h h' -> heap_sim (seal_edges_decl decls) h h'.
+Proof.
+  intros R. split; [eapply Forall2_len; eauto|].
+  intros n nd En. destruct (Forall2_nth _ _ _ R n nd En) as [nd' [En' Hn]].
+  exists nd'. split; auto. unfold seal_edges_decl.
+  rewrite (by_decl_reassigned decls _ _ Hn). destruct Hn as [C [_ [_ [_ [_ [_ S]]]]]]. auto.
+Qed.
+
+(* same configuration, parameters assigned in another order: same generated values *)
+Theorem assignment_order_irrelevant : forall esc decls h h' gens root jd,
+  heap_reassigned h h' ->
+  generated esc (seal_edges_decl decls) h gens root jd = generated esc (seal_edges_decl decls) h' gens root jd.
+Proof. intros. apply generated_sim, reassigned_sim; auto. Qed.
+
+(* the walk over a heap in assignment order = the walk of the theorems above over the heap put in
+   declaration order                                                                          *)
+Lemma visit_map2 (g : node -> node) (E E' : nat -> node -> list edge) cut cut' h :
+  (forall n nd, E n (g nd) = E' n nd) -> (forall n, cut n = cut' n) ->
+  forall fuel pos n st, visit (map g h) E cut fuel pos n st = visit h E' cut' fuel pos n st.
+Proof.
+  intros HE HC. induction fuel as [|f IH]; intros pos n st; simpl; auto.
+  rewrite nth_error_map. destruct (nth_error h n) as [nd|]; simpl; auto.
+  destruct (memb n (visited st)); auto. rewrite HC. destruct (cut' n); auto.
+  rewrite HE.
+  rewrite (fold_opt_ext_eq _ (fun e s => visit h E' cut' f (pos ++ fst e) (snd e) s)); auto.
+Qed.
+
+Lemma cut_sealed_by_decl decls h n : cut_sealed (map (by_decl decls) h) n = cut_sealed h n.
+Proof. unfold cut_sealed. rewrite nth_error_map. destruct (nth_error h n); reflexivity. Qed.
+
+Theorem generated_by_decl : forall esc decls h gens root jd,
+  generated esc (seal_edges_decl decls) h gens root jd
+  = generated esc seal_edges (map (by_decl decls) h) gens root jd.
+Proof.
+  intros esc decls h gens root jd. unfold generated, walk, fuel_bound. rewrite map_length.
+  rewrite (visit_map2 (by_decl decls) seal_edges (seal_edges_decl decls)
+             (cut_sealed (map (by_decl decls) h)) (cut_sealed h) h
+             (fun n nd => eq_refl) (cut_sealed_by_decl decls h)).
+  destruct (visit h (seal_edges_decl decls) (cut_sealed h) (S (length h)) [] root st0) as [st|]; auto.
+  f_equal. apply flat_map_ext. intros [n pos]. unfold entries_of, gens_of. simpl.
+  rewrite nth_error_map. destruct (nth_error h n); reflexivity.
+Qed.
+
+(* hence inside the job directory and distinct, for configurations assigned in any order *)
+Theorem assigned_inside_distinct : forall decls h gens root jd l,
+  names_wf (map (by_decl decls) h) -> task_targets_cut (map (by_decl decls) h) -> files_ok gens ->
+  generated esc_fix (seal_edges_decl decls) h gens root jd = Some l ->
+  (forall e, In e l ->
+     exists comps, comps <> [] /\ Forall (fun c => plain c = true) comps /\
+       g_path e = {| p_root := p_root jd; p_parts := p_parts jd ++ comps |}) /\
+  (forall e1 e2, In e1 l -> In e2 l ->
+     (g_node e1, g_file e1) <> (g_node e2, g_file e2) -> g_path e1 <> g_path e2).
+Proof.
+  intros decls h gens root jd l W T F G. rewrite generated_by_decl in G. split.
+  - intros e He. eapply inside_jobdir_fix; eauto.
+  - intros e1 e2 H1 H2. eapply distinct_wf; eauto.
+Qed.
+
+(* a walk iterating .values.items() (assignment order): Main(c=s, c2=s) and Main(c2=s, c=s) - one
+   configuration, one identifier, one job directory - give s two different paths               *)
+Definition s_c2 : str := [99%N; 50%N].         (* "c2" *)
+Definition asg_decls : list (list str) := [[s_c; s_c2; s_p]; [s_p]].
+Definition asg_heap1 : heap := [ mk 0 [(s_c, VRef 1); (s_c2, VRef 1)] []; mk 1 [] [] ].
+Definition asg_heap2 : heap := [ mk 0 [(s_c2, VRef 1); (s_c, VRef 1)] []; mk 1 [] [] ].
+
+Example asg_heaps_reassigned : heap_reassigned asg_heap1 asg_heap2.
+Proof.
+  constructor; [|constructor; [|constructor]].
+  - repeat split. + apply perm_swap. + simpl. constructor; [intros [H|[]]; discriminate|]. constructor; [intros []|constructor].
+  - repeat split. + apply Permutation_refl. + constructor.
+Qed.
+
+Theorem assignment_order_refuted :
+  exists h h' gens root jd,
+    heap_reassigned h h' /\
+    generated esc_fix seal_edges_assigned h gens root jd <> generated esc_fix seal_edges_assigned h' gens root jd.
+Proof.
+  exists asg_heap1, asg_heap2, ex_gens, 0, ex_jd. split; [apply asg_heaps_reassigned|].
+  vm_compute. intros E. inversion E.
+Qed.
+
+Example asg_heaps_repaired :
+  generated esc_fix (seal_edges_decl asg_decls) asg_heap1 ex_gens 0 ex_jd
+  = generated esc_fix (seal_edges_decl asg_decls) asg_heap2 ex_gens 0 ex_jd
+  /\ exists l, generated esc_fix (seal_edges_decl asg_decls) asg_heap2 ex_gens 0 ex_jd = Some l /\ length l = 2%nat.
+Proof.
+  split; [apply assignment_order_irrelevant, asg_heaps_reassigned|].
+  eexists. split; [vm_compute; reflexivity|reflexivity].
+Qed.
+
+Example asg_hyps : names_wf (map (by_decl asg_decls) asg_heap2) /\ task_targets_cut (map (by_decl asg_decls) asg_heap2).
+Proof. split; [apply names_wfb_sound | apply task_targets_cutb_sound]; vm_compute; reflexivity. Qed.
